@@ -13,16 +13,27 @@ Runs with several tests (overloads, a second contract with the same signature) a
 report counts for a test when it names it or was printed while it was running (c10_lib.attribute).
 Paths stopped by an unsupported feature (symbolic memory offset / size) in the test body, in a callee
 (CALL / STATICCALL / DELEGATECALL) and in a constructor must give a non-PASS status.
+Invariant testing: T-frontiercls regenerates the filters `_compute_frontier` applies to each result state of a target
+transaction IN SOURCE ORDER (Gen/GenFrontierCls.v); tie X-C10-frontier: the real `_compute_frontier` is driven
+(harness/c10_frontier.py) on fabricated result states built from the real CallContext / CallOutput classes -- the
+exhaustive grid of (own error kind x sub-calls x output data x probe reported x visited x panic codes) and random
+sequences -- and compared with the extracted model (which states get an ERROR line / reach the probe handler / join
+the frontier / raise) and with the spec rule `a call that did not complete is named by an ERROR line`.  L3 family
+inv_stuck: an invariant target whose function hits an unsupported feature in ITS OWN frame (or in a helper it calls)
+on one side of a branch, --invariant-depth 1 and 2.
 """
 import json
+import re
+import threading
 import time
 
+from harness import c10_frontier as FR
 from harness import c10_lib as G
 from harness import common, l3
 from harness.common import Model
 
 PID = "C10"
-TRANSLATORS = ["T-jumpi", "T-runtest", "T-cutwarn", "T-logfilter"]
+TRANSLATORS = ["T-jumpi", "T-runtest", "T-cutwarn", "T-logfilter", "T-frontiercls"]
 
 KNOWN = common.known_for("C10")  # entries live in /verif/known_findings.json
 
@@ -195,11 +206,26 @@ def run(rep, tier):
     cases = G.gen_cases(r, tier)
     r.shuffle(cases)
     # invariant and setUp cases first (they carry the runner-level statements), then the rest within the budget
-    cases.sort(key=lambda c: c["family"] not in ("invariant", "invariant_states", "setup", "depth_multi", "stuck", "stuck_setup"))
+    cases.sort(key=lambda c: c["family"] not in ("inv_stuck", "invariant", "invariant_states", "setup", "depth_multi", "stuck", "stuck_setup"))
+    # the L1 tie of the frontier filters runs (in its own process) while the L3 pool is busy
+    fr_jobs = FR.gen_jobs(r, tier)
+    fr_box = {}
+
+    def fr_run():
+        t0 = time.time()
+        try:
+            fr_box["res"] = FR.run_jobs(fr_jobs, timeout=400 if tier == "quick" else 1500)
+        except Exception as e:  # noqa: BLE001
+            fr_box["exc"] = f"{type(e).__name__}: {e}"
+        rep.coverage["frontier_driver_seconds"] = round(time.time() - t0, 1)
+
+    fr_thread = threading.Thread(target=fr_run, daemon=True)
+    fr_thread.start()
     res = l3.run_pool(worker, cases, timeout=240, total_timeout=420 if tier == "quick" else 1100)
     rep.coverage["l3_tasks"] = [[c["family"], json.dumps(c["params"]), " ".join(c["options"]), st, (v or {}).get("seconds") if st == "ok" else None] for c, (st, v) in zip(cases, res)]
     model_calls, model_expect = [], []
     depth_calls, stuck_calls, setup_calls = [], [], []
+    inv_stuck_runs = []
     for case, (st, val) in zip(cases, res):
         rep.count("l3_run", st)
         if st != "ok":
@@ -234,6 +260,22 @@ def run(rep, tier):
                               case=full, sig={"kind": "stuck-path-pass", "family": "stuck_setup", "where": case["params"]["where"]})
             elif status is None and seen == -1:
                 rep.fail("broken-tie", f"stuck_setup {case['params']}: no verdict and no setUp failure message: {text[-400:]}", case=full)
+            continue
+        if case["family"] == "inv_stuck":
+            text = val["out"] + "\n" + val["err"]
+            depths = sorted({int(x) for x in re.findall(r"ERROR\s+depth=(\d+):", text)})
+            reaching = [d for d, o in truth if str(o).startswith("panic") or str(o) == "target:unsupported"]
+            full["error_lines_at_depths"] = depths
+            if status is None:
+                rep.fail("broken-tie", f"halmos printed no verdict for {sig} with {case['options']}: {val['out'][-300:]} {val['err'][-300:]}", case=full)
+                continue
+            named = "error_log" in warns or "internal_error" in warns or any(w in warns for w in REPORTED)
+            if status == "PASS" and reaching and not named:
+                fail_or_known(rep, "failing-input",
+                              f"inv_stuck {case['params']} with {' '.join(case['options'])}: [PASS] {sig} and NOTHING is reported (no ERROR / warning line), although the target transaction poke(x) was stopped on its x != 77 path by an unsupported feature ({case['params']['kind']}, hit in {'the frame of the target function itself' if case['params']['where'] == 'top' else 'a helper it calls'}) and `{reaching[0]}` {'breaks the invariant (Panic(1))' if 'panic' in str(dict(truth)[reaching[0]]) else 'reaches the instruction'} on the reference interpreter",
+                              case=full, sig={"kind": "stuck-target-pass", "family": "inv_stuck", "where": case["params"]["where"]})
+                continue
+            inv_stuck_runs.append((case, depths, full))
             continue
         if status is None and case["family"] != "setup":
             rep.fail("broken-tie", f"halmos printed no verdict for {sig} with {case['options']}: {val['out'][-300:]} {val['err'][-300:]}", case=full)
@@ -334,6 +376,65 @@ def run(rep, tier):
                 rep.count("runner_model", f"stuck_setup:{full['params']['where']}:model={mo[0] if mo else None}:halmos={seen}")
                 if mo is None or mo[0] != seen:
                     rep.fail("broken-tie", f"stuck_setup {full['params']}: setup_select model says {mo} (0 a path is selected / 1 none / 2 multiple), halmos: {seen}", case=full)
+    # ---- invariant frontier: L3 runs against the extracted model of the filters
+    if m2 is not None and inv_stuck_runs:
+        # result states of the transactions explored from ONE frontier state, as the model sees them: poke(x == 77) completes
+        # (new state), poke(x != 77) is cut -- in its own frame (error set, no output) or in the helper (no error of its own, no
+        # output) --, flag() returns 32 bytes and changes nothing (state already visited)
+        for case, depths, full in inv_stuck_runs:
+            cut_leaf = [4, 0, 0, 0] if case["params"]["where"] == "top" else [0, 1, 4, 0, 0, 0]
+            states = [[0, 0, 1, 0, 0, 0], cut_leaf + [0, 0], [0, 0, 1, 32, *([0] * 32), 0, 1]]
+            [mo] = m2.batch([("c10_frontier_run", [1, 1, len(states), *[x for st in states for x in st]])])
+            d = int(case["options"][case["options"].index("--invariant-depth") + 1])
+            want = list(range(1, d + 1)) if mo and FR.dec_model(mo)["errors"] == [1] else []
+            rep.count("frontier_model", f"inv_stuck:{case['params']['where']}:{case['params']['kind']}:depth={d}:model_depths={want}:halmos_depths={depths}")
+            if mo is None or want != depths:
+                rep.fail("broken-tie", f"inv_stuck {case['params']} {case['options']}: the frontier model (filters regenerated from _compute_frontier) says the cut target transaction is named by an ERROR line at depths {want}, halmos printed ERROR lines for depths {depths}", case=full)
+    # ---- invariant frontier: the real _compute_frontier on fabricated result states (L1)
+    fr_thread.join(timeout=500 if tier == "quick" else 1600)
+    fr_res = fr_box.get("res")
+    if fr_res is None:
+        rep.fail("broken-tie", f"the in-process driver of _compute_frontier gave no result: {fr_box.get('exc', 'timeout')}", case={})
+    else:
+        mouts = m2.parallel_batch([FR.model_call(j) for j in fr_jobs]) if m2 is not None else [None] * len(fr_jobs)
+        bad = []
+        for job, real, mo in zip(fr_jobs, fr_res, mouts):
+            cuts = [i for i, st in enumerate(job["states"]) if FR.spec_cut(st)]
+            rep.case({"frontier_job": job}, nontrivial=bool(cuts))
+            own = sum(1 for i in cuts if job["states"][i]["tree"][0] == 4)
+            rep.count("frontier_tie", f"{'single' if len(job['states']) == 1 else 'sequence'}:cut_states={'0' if not cuts else '1+'}:own_frame_error={'0' if not own else '1+'}")
+            if "harness_error" in real:
+                rep.fail("broken-tie", f"the driver of _compute_frontier failed: {real['harness_error']}", case={"frontier_job": job})
+                continue
+            # SPEC vs implementation: a call that did not complete is named by an ERROR line (or an exception ended the
+            # computation at / before it: the test then has no PASS)
+            silent = [i for i in cuts if i not in real["errors"] and not (0 <= real["raised"] <= i)]
+            joined = [i for i in cuts if i in real["next"] or i in real["frontier_cache"]]
+            if silent or joined:
+                bad.append((job, real, (silent or joined)[0], bool(silent)))
+            if real["next"] != real["frontier_cache"] or real["next"] != real["marks"]:
+                rep.fail("broken-tie", f"_compute_frontier: yielded states {real['next']}, cached frontier {real['frontier_cache']}, newly visited {real['marks']} differ", case={"frontier_job": job, "real": real})
+            if m2 is None:
+                continue
+            want = FR.dec_model(mo) if mo else None
+            got = {k: real[k] for k in ("raised", "errors", "probes", "next")}
+            if want != got:
+                rep.fail("broken-tie", f"frontier model (Gen/GenFrontierCls.v + Model/InvCutModel.v) says {want} for the result states, the real _compute_frontier did {got}", case={"frontier_job": job, "real": real})
+        # the states halmos really produces first (a HalmosException ends the call without output; a call stuck in a
+        # sub-call has no error of its own and no output), the smallest jobs first; at most three are listed
+        realistic = lambda st: st["data"] is None and (st["tree"][0] == 4 or any(x[0] == 4 or any(y[0] == 4 for y in x[1]) for x in st["tree"][1]))  # noqa: E731
+        bad.sort(key=lambda b: (not realistic(b[0]["states"][b[2]]), b[0]["states"][b[2]]["tree"][0] != 4, len(b[0]["states"])))
+        rep.coverage["frontier_jobs"] = len(fr_jobs)
+        rep.coverage["frontier_jobs_violating"] = len(bad)
+        for job, real, i, silent in bad[:3]:
+            st = job["states"][i]
+            fail_or_known(rep, "failing-input",
+                          f"_compute_frontier, result state #{i} of {len(job['states'])} (panic codes {job['codes']}): the target call "
+                          f"{'ended with a HalmosException of its own frame (output.error set' if st['tree'][0] == 4 else 'has no output (internal error in a nested call'}"
+                          f", data {'None' if st['data'] is None else 'present'}; own error kind {st['tree'][0]}; sub-calls {st['tree'][1]}; probe reported {st['probe_reported']}; visited {st['visited']}) but "
+                          f"{'no ERROR line names it' if silent else 'it joined the next frontier'}: errors logged for states {real['errors']}, probes {real['probes']}, next frontier {real['next']}, raised at {real['raised']}"
+                          f" ({len(bad)} of {len(fr_jobs)} jobs violate the rule)",
+                          case={"frontier_job": job, "real": real, "state": i}, sig={"kind": "frontier-cut-not-reported", "own_frame": st["tree"][0] == 4})
     if m2 is not None and depth_calls:
         outs = m2.batch([c for c, _, _ in depth_calls])
         for (c, want, full), mo in zip(depth_calls, outs):
@@ -343,18 +444,22 @@ def run(rep, tier):
     rep.coverage["traces_validated_against_impl"] = sum(1 for st, _ in res if st == "ok")
     rep.coverage["known_findings_declared"] = [k["id"] for k in KNOWN]
     return rep.finish(
-        checker_cmd="make -C coq Props/C10.vo (coq_makefile, coqc 8.16.1) after regenerating coq/Gen/GenJumpi.v and GenCutWarn.v from src/halmos/sevm.py, GenRunTest.v from src/halmos/__main__.py and GenLogFilter.v from src/halmos/logs.py",
+        checker_cmd="make -C coq Props/C10.vo (coq_makefile, coqc 8.16.1) after regenerating coq/Gen/GenJumpi.v and GenCutWarn.v from src/halmos/sevm.py, GenRunTest.v and GenFrontierCls.v from src/halmos/__main__.py and GenLogFilter.v from src/halmos/logs.py",
         trusted_base=common.TRUSTED_BASE_COMMON + ["the fabricated forge artifacts + stub forge (harness/l3.py) and the extracted reference interpreter coq/Spec/Evm.v as EVM oracle"],
         assumptions=ASSUMPTIONS,
-        rule="cases = (family, parameters, halmos options): counted loops in three syntactic forms (while / negated exit test / count-down) with trip count const n, pinned by a require, the argument, arg & 7, arg % 6; planted Panic(1) when the counter equals K below/at/above --loop in {1,2,4}; a 20-iteration concrete loop under --depth; 2^k-path branch ladders under --width; setUpSymbolic with a loop; an invariant target with a loop; several tests with the same two-path body under --depth in one run (overloads of one name, another name, the same signature in a second contract), judged per test; a path stopped by an unsupported feature (symbolic memory offset / keccak size) in the test body, in a CALL / STATICCALL / DELEGATECALL callee, in a constructor, and in setUp (body / callee); valid instructions halmos has no handler for (SELFDESTRUCT, BLOBHASH, BLOBBASEFEE; the reference interpreter confirms that the execution reaches them); an invariant whose own loop is cut on some frontier states only, in both orders of the frontier; "
+        rule="cases = (family, parameters, halmos options): counted loops in three syntactic forms (while / negated exit test / count-down) with trip count const n, pinned by a require, the argument, arg & 7, arg % 6; planted Panic(1) when the counter equals K below/at/above --loop in {1,2,4}; a 20-iteration concrete loop under --depth; 2^k-path branch ladders under --width; setUpSymbolic with a loop; an invariant target with a loop; several tests with the same two-path body under --depth in one run (overloads of one name, another name, the same signature in a second contract), judged per test; a path stopped by an unsupported feature (symbolic memory offset / keccak size) in the test body, in a CALL / STATICCALL / DELEGATECALL callee, in a constructor, and in setUp (body / callee); valid instructions halmos has no handler for (SELFDESTRUCT, BLOBHASH, BLOBBASEFEE; the reference interpreter confirms that the execution reaches them); an invariant whose own loop is cut on some frontier states only, in both orders of the frontier; an invariant target whose function is stopped by an unsupported feature (SELFDESTRUCT, symbolic memory offset, symbolic-size REVERT) in its own frame / in a helper it creates and calls, on one side of a branch, --invariant-depth 1 and 2; frontier jobs = the real _compute_frontier on fabricated result states: exhaustive grid own error kind {none, Revert, InvalidOpcode, FailCheatcode, HalmosException} x sub-calls {none, failed flag, internal error, ok, nested internal error} x output data {None, empty, Panic(1), Panic(0x11), Error(...)} x probe reported x visited x panic codes {[1], any, [1, 0x11]} (quick tier: the last two only for calls ended by a Revert or by an internal error of their own) as single states, then random sequences of 3-14 states (non-trivial = a state whose call did not complete); "
              "non-trivial = some concrete execution reaches the planted failure on the reference interpreter (or the loop is concrete); distinct by hash of the case",
-        partial="the L3 tie observes incompleteness only through the planted failure; --depth cuts inside setUp / targets are observed at L3 only; the early exit (ShutdownError while a stuck path is being confirmed) is excluded by hypothesis in the runner theorems",
+        partial="the L3 tie observes incompleteness only through the planted failure; --depth cuts inside setUp / targets are observed at L3 only; the early exit (ShutdownError while a stuck path is being confirmed) is excluded by hypothesis in the runner theorems; the frontier theorems take `probe already reported` / `state already visited` as arbitrary inputs per result state and count an ERROR line of the frontier computation as the report (a later invariant test of the same contract reuses the cached frontier and does not repeat the line); setup(): a path with an error of its own is reported only when the failing opcode is neither REVERT nor INVALID (not modelled)",
     )
 
 
 def replay(rep, body):
     for f in body.get("failures", []):
         case = f.get("case") or {}
+        if "frontier_job" in case:
+            [real] = FR.run_jobs([case["frontier_job"]])
+            print("result states:", json.dumps(case["frontier_job"]))
+            print("the real _compute_frontier:", json.dumps(real))
         if "family" in case:
             out = worker({k: case[k] for k in ("family", "params", "options")})
             print(out["out"][-2000:], out["err"][-1000:])
